@@ -578,7 +578,7 @@ def api_phases(ctx, emphasis):
         groups.append(lifetime_walk("life/%s/h2x2" % alg, alg, [(ws[(ai + 1) % 4], 2), (ws[(ai + 2) % 4], 2)], cyc[(ai + 1) % 4]))
         groups.append(lifetime_walk("life/%s/h2-mem" % alg, alg, [(ws[(ai + 3) % 4], 2)], ["accept"], api="mem"))
         # MIXED per-level heights: the last leaves of a 2^7 lifetime (crossing subtree roll-overs both ways)
-        groups.append(lifetime_walk("life/%s/h2h5-end" % alg, alg, [(ws[(ai + 2) % 4], 2), (4, 5)], cyc[ai % 4], start=128 - 36))
+        groups.append(lifetime_walk("life/%s/h2h5-end" % alg, alg, [(ws[(ai + 2) % 4], 2), (4, 5)], cyc[ai % 4], start=128 - 20))
         groups.append(lifetime_walk("life/%s/h5h2-end" % alg, alg, [(4, 5), (ws[(ai + 1) % 4], 2)], cyc[(ai + 2) % 4], start=128 - 10,
                                     api="mem" if ai % 2 else "bytes"))
         if not quick:
